@@ -116,6 +116,10 @@ class Ice:
         app = first == 23 or 127 < first < 192  # DTLS application data or SRTP/SRTCP: never a handshake flight
         if app and self.alter_next is not None:
             bit = self.alter_next % (len(data) * 8)
+            if first == 23 and 88 <= bit < 104:
+                # the 16-bit length field of a DTLS record: a length below the AEAD overhead makes OpenSSL (trusted, not the
+                # code under test) answer with a fatal alert instead of dropping the record; alter the body instead
+                bit += 16
             self.alter_next = None
             b = bytearray(data)
             b[bit // 8] ^= 1 << (bit % 8)
